@@ -1386,8 +1386,8 @@ def _build_fn(sf: SourceFile, item: Item, impl, ex: Extract, props, rep, unit, a
     body_toks = list(toks_all[item.hdr_end:item.end])   # includes braces
 
     # optional: inline block extraction (R0 anchors)
-    if "block_from" in a:
-        body_toks = _extract_block(body_toks, a["block_from"], a.get("block_to"), a, rep)
+    if "block_from" in a or "block_back" in a:
+        body_toks = _extract_block(body_toks, a.get("block_from", ""), a.get("block_to"), a, rep)
         sig_toks = lex(a["wrap"])
         qual = qual + "#" + (a.get("blockname") or "block")
 
@@ -1604,7 +1604,7 @@ def _build_fn(sf: SourceFile, item: Item, impl, ex: Extract, props, rep, unit, a
         rep.append(("R0", f"fn renamed to {ex.rename}"))
     where_txt = ""
     wpos = _top_level_where(sig_toks)
-    if wpos is not None and "block_from" not in a:
+    if wpos is not None and "block_from" not in a and "block_back" not in a:
         where_txt = text_of(sig_toks[wpos:]).strip()
         sig_text = text_of(sig_toks[:wpos]).rstrip()
     if ex.ret:
@@ -1787,7 +1787,30 @@ def _clause_lines(c, indent="        "):
 
 def _extract_block(body_toks, frm, to, a, rep):
     pat = pat_tokens(frm)
-    hits = _find_seq_any(body_toks, pat)
+    hits = _find_seq_any(body_toks, pat) if pat else []
+    if a.get("block_back") and to:
+        # the block starts N statements before the (unique) end-anchor statement: robust against edits of the
+        # text of those statements
+        ends = _find_seq_any(body_toks, pat_tokens(to))
+        if len(ends) != 1:
+            raise AnchorLost(f"block_to {to!r}: {len(ends)} matches (block_back)")
+        st = _stmt_start_before(body_toks, ends[0][0], 1)
+        for _ in range(int(a["block_back"])):
+            pv = _prev_sig(body_toks, st)
+            if pv < 1:
+                break
+            st = _stmt_start_before(body_toks, pv, 1)
+        e = _stmt_end_from_start(body_toks, _stmt_start_before(body_toks, ends[0][0], 1))
+        rep.append(("R0", f"inline block: {a['block_back']} statement(s) before and including `{to[:50]}` extracted"))
+        tail = a.get("tail", "")
+        return [T(PUNCT, "{"), T(WS, "\n")] + body_toks[st:e] + [T("raw", "\n" + tail + "\n"), T(PUNCT, "}")]
+    if len(hits) > 1 and to:
+        # ambiguous start: take the occurrence nearest before the (unique) end anchor
+        ends = _find_seq_any(body_toks, pat_tokens(to))
+        if len(ends) == 1:
+            before = [h for h in hits if h[0] <= ends[0][0]]
+            if before:
+                hits = [before[-1]]
     if len(hits) != 1:
         raise AnchorLost(f"block_from {frm!r}: {len(hits)} matches")
     s = _stmt_start_before(body_toks, hits[0][0], 1)
